@@ -13,7 +13,7 @@ CHECKS = {
  "C03": dict(
   engine="GEN",
   technique="bounded-exhaustive enumeration of query trees x fact subsets x topologies on the real query evaluator against a reference evaluator (multiset equality)",
-  text="Every query tree up to depth 2 (quick; depth 3 over a reduced pool in thorough) built from 12 leaves (empty, four patterns sharing variables, seven code templates) with and/or/or+shortCircuit of arity 0..2 and not, is evaluated on every subset of a 4-fact universe, with the facts local or split between the location and its parent, by Location.Query and, wrapped as a rule condition, by ProcessEvent; results (or the error) are compared as multisets with a 60-line reference evaluator written from the property statement.",
+  text="Every query tree up to depth 2 over 12 leaves, plus every tree with an operator directly under an operator over a 3-leaf pool (quick; over a 6-leaf pool in thorough), built from 12 leaves (empty, four patterns sharing variables, seven code templates) with and/or/or+shortCircuit of arity 0..2 and not, is evaluated on every subset of a 4-fact universe, with the facts local or split between the location and its parent, by Location.Query and, wrapped as a rule condition, by ProcessEvent; results (or the error) are compared as multisets with a 60-line reference evaluator written from the property statement.",
   note="Trusts core.Matches for fact matching (C05) and the native evaluation of the seven code templates in the reference. Bounded tree depth/arity.",
   design="2/C03"),
  "C06": dict(
@@ -50,13 +50,13 @@ CHECKS = {
  "C12": dict(
   engine="SCHED",
   technique="stateless model checking of the implementation: controlled cooperative scheduler + deviation-bounded DFS over thread schedules, brute-force linearizability against sequential runs, vector-clock happens-before race detection on instrumented maps",
-  text="Two client threads issue one operation each on shared ids of one location for ALL ordered pairs of 9 operations (AddFact x2 values, RemFact, GetFact, SearchFacts, AddRule, RemRule, EnableRule, ProcessEvent), from an empty and a populated location, on both states; every schedule with at most 3 deviations (quick) / 4 (thorough; plus 3 threads and 2+1 operations over a 5-operation alphabet) is executed on the real code under a scheduler that owns every lock, goroutine spawn, channel operation and timer. Per schedule: the call/return history must be explained by a real-time-respecting sequential order (run on a fresh location), final private state and storage must equal that order's, no deadlock (Go's RWMutex writer preference is modelled), no escaped panic, no happens-before race on any instrumented map.",
+  text="Two client threads issue one operation each on shared ids of one location for ALL ordered pairs of 9 operations (AddFact x2 values, RemFact, GetFact, SearchFacts, AddRule, RemRule, EnableRule, ProcessEvent), from an empty and a populated location, on both states; every schedule with at most 3 deviations (quick) / 4 (thorough; plus 3 threads and 2+1 operations over a 5-operation alphabet) is executed on the real code under a scheduler that owns every lock, goroutine spawn, channel operation and timer. Per schedule: the call/return history must be explained by a real-time-respecting sequential order (run on a fresh location), final private state and storage must equal that order's, no deadlock (Go's RWMutex writer preference is modelled), no escaped panic, no happens-before race on any instrumented map (thorough: also on the pointer-reached fields of core.IndexedState, core.LinearState and core.Location).",
   note="Sequential consistency is assumed for racy code (races themselves are reported). Visible: rulio's sync, go statements, channels, timers, map accesses; not visible: slice elements, pointer fields, otto internals. 2-3 clients of the property's 2..8. A JavaScript timeout landing early is excluded here (C14).",
   design="2/C12"),
  "C14": dict(
   engine="GEN+SCHED",
   technique="stateless model checking under a controlled scheduler with virtual time as a participant: deviation-bounded DFS over schedules and timer landings of script family x timeout setting x context; native real-time deadline only for busy loops",
-  text="9 script families (value, binding, throwing, undefined variable, syntax error, non-terminating with Env.sleep, slow-but-finishing at 4/6/12 ms) x 12 timeout settings (Control.JavascriptTimeout {0,5ms,negative} x DefaultJavascriptTimeout {10ms,negative} x JavascriptTimeouts on/off) x 3 contexts (Location.RunJavascript, rule condition, rule action through ProcessEvent) run under the scheduler with virtual time; every schedule with at most 2 deviations (3 thorough), where the watchdog timer landing early at any scheduling point is a deviation. The caller must return on every schedule; an overrunning script must yield an error / non-complete node within limit + one wait quantum; throwing and invalid scripts yield errors; within-limit scripts return their value. Busy loops without a scheduling point run natively in child processes against a 20 s deadline (3 isolated runs).",
+  text="9 script families (value, binding, throwing, undefined variable, syntax error, non-terminating with Env.sleep, slow-but-finishing at 4/6/12 ms) x 12 timeout settings (Control.JavascriptTimeout {0,5ms,negative} x DefaultJavascriptTimeout {10ms,negative} x JavascriptTimeouts on/off) x 3 contexts (Location.RunJavascript, rule condition, rule action through ProcessEvent) run under the scheduler with virtual time; every schedule with at most 2 deviations (3 thorough), where the watchdog timer landing early at any scheduling point is a deviation. The caller must return on every schedule; an overrunning script must yield an error / non-complete node within limit + one wait quantum; throwing and invalid scripts yield errors; within-limit scripts return their value. Busy loops without a scheduling point (while(true){}, while(true){x=1}, for(;;){}, for(;;){x=1}, do{}while(true)) run natively in child processes with a 50 ms limit against a 20 s deadline (3 isolated runs each).",
   note="Code between scheduling points takes no virtual time; an early timer landing models slow real execution, so a finishing script may then end either way (but never hang, never success with a nil value).",
   design="2/C14"),
  "C13": dict(
@@ -92,7 +92,7 @@ CHECKS = {
  "C19": dict(
   engine="GEN+SEQ",
   technique="exhaustive enumeration of the product protection state x caller context x operation x set-up history on the real Location (directly and via sys.System), privileged before/after snapshot and unprotected-twin oracle",
-  text="The full product of 16 protection states (write key x read key x read-only x disabled), 13 caller contexts (no/wrong/right write and read key, also as SubContexts), 27 operations (whole Location API, Env.* location functions reached from RunJavascript, events whose rule actions mutate), 4 set-up histories, both states and both drivers is executed: a mutating call without write authority must fail and leave private state + storage identical, a revealing call without read authority must fail and return no data, a fully authorised call must equal the same call on an unprotected twin.",
+  text="The full product of 16 protection states (write key x read key x read-only x disabled), 13 caller contexts (no/wrong/right write and read key, also as SubContexts), 27 operations (whole Location API, Env.* location functions reached from RunJavascript, events whose rule actions mutate), 4 set-up histories, both states and both drivers is executed: a mutating call without write authority must fail and leave private state + storage identical, a revealing call without read authority must fail and return no data, a fully authorised call must equal the same call on an unprotected twin. Inherited path: a parent in each of the 16 protection states is reached through an unprotected child by 7 revealing operations (inherited SearchFacts / ListRules / SearchRules, Query, ProcessEvent, Env.Search, Env.Query) from the 13 caller contexts: without read authority over the parent none of the parent's facts or rules may come back, with it the answer equals the unprotected one.",
   note="The mutating/revealing classification is argued at the top of c19.go (RuleEnabled, GetParents unclassified). ListRules' documented swallowing of the search error (empty list) is accepted as a refusal.",
   design="2/C19"),
  "C20": dict(
@@ -116,13 +116,13 @@ CHECKS = {
  "C05": dict(
   engine="GEN",
   technique="bounded-exhaustive enumeration of (pattern, datum, bindings) triples x owned map-iteration orders on the real matcher against an independent reference matcher",
-  text="Every (pattern, datum, initial bindings) triple of a bounded JSON grammar inside the documented fragment (node budgets 4/4 quick, 5/5 thorough) is run through core.Match under every iteration order of the maps the sheens matcher ranges over (order owned through the build overlay), and the result is compared as a set of binding sets with a brute-force reference matcher written from the manual; inputs are checked for mutation; every core.Map/[]string/[]int/int decoration of each pair must answer like the plain JSON form; Bindings.Bind is compared with reference substitution.",
+  text="Every (pattern, datum, initial bindings) triple of a bounded JSON grammar inside the documented fragment (node budgets 4/4 quick, 5/5 thorough) is run through core.Match under every iteration order of the maps the sheens matcher ranges over (order owned through the build overlay), and the result is compared as a set of binding sets with a brute-force reference matcher written from the manual; inputs are checked for mutation; every core.Map/[]string/[]int decoration of each pair, and the same numbers as Go ints / int64s on one side only, must answer like the plain JSON form; Bindings.Bind is compared with reference substitution.",
   note="Trusts the reference matcher (harness/lib/refmatch.go, ~200 lines, written from the manual's definition). Data strings never look like variables (C13 covers that). Bounded term size: a defect needing a 6-node pattern is missed.",
   design="2/C05"),
  "C02": dict(
   engine="SEQ",
   technique="explicit-state model checking: exhaustive BFS over bounded operation sequences on the real Location, state-hash dedup, reference-model oracle",
-  text="Every AddFact/AddRule/RemFact/GetFact/SearchFacts sequence up to the depth bound (3 quick / 5 thorough) over ids {f1,f2,generated}, 12 facts and 18 patterns is executed on the real indexed and linear states and compared step by step, and by a full probe battery in every reached state, with a map-based reference model; states are deduplicated on model + private index dump + storage, so the reachable canonical state space within the bound is covered completely.",
+  text="Every AddFact/AddRule/RemFact/GetFact/SearchFacts sequence up to the depth bound (3 quick / 5 thorough) over ids {f1,f2,generated}, 13 facts and 19 patterns is executed on the real indexed and linear states and compared step by step, and by a full probe battery in every reached state, with a map-based reference model; states are deduplicated on model + private index dump + storage, so the reachable canonical state space within the bound is covered completely.",
   note="Trusts core.Matches as the definition of a match (decided separately by C05), the Go toolchain, and the rewriter's two L1 transformations (virtual clock, sorted map iteration). Generated ids are compared up to renaming.",
   design="2/C02"),
 }
